@@ -163,6 +163,17 @@ def model_check(ctx):
 
 
 # --------------------------------------------------------------------------------------------------
+MAX_REPORTS = 12
+
+
+def _viol(ctx, what, rep):
+    """Report at most MAX_REPORTS violations in full (a broken tree fails thousands of behaviours)."""
+    if len(ctx.violations) < MAX_REPORTS:
+        ctx.violation(what, rep)
+    else:
+        ctx.extra["violations_not_reported_individually"] = ctx.extra.get("violations_not_reported_individually", 0) + 1
+
+
 def _key(steps):
     return hashlib.sha1(json.dumps(steps, sort_keys=True).encode()).hexdigest()
 
@@ -183,7 +194,8 @@ def generate(ctx, have_sg):
     def wit(item):
         w, kw = item
         c = _cfg(ctx, "w-" + w, hist=True, inv=w, **kw)
-        return w, tlc.tlc("MetricsAsync", c, rundir=ctx.rundir.path, workers=2, timeout_s=200, tag="w-" + w)
+        # one worker: BFS is then deterministic, i.e. always the same shortest behaviour
+        return w, tlc.tlc("MetricsAsync", c, rundir=ctx.rundir.path, workers=1, timeout_s=200, tag="w-" + w)
 
     wl = {}
     with cf.ThreadPoolExecutor(max_workers=5) as ex:
@@ -205,7 +217,7 @@ def generate(ctx, have_sg):
     tlc.must_ok(r, "all-behaviours export")
     ctx.add_tlc("all behaviours, tiny configuration (export)", r)
     n0 = len(behs)
-    for b in r.printed("BEH"):
+    for b in sorted(r.printed("BEH"), key=_key):      # TLC's print order depends on worker scheduling
         add(b, "bfs")
     ctx.extra["behaviours_bfs_all"] = len(behs) - n0
     # (c) random walks over larger domains
@@ -228,7 +240,7 @@ def generate(ctx, have_sg):
             if r.status != "ok":
                 raise Broken("simulate %s failed: %s\n%s" % (name, r.status, r.out[-1500:]))
             n0 = len(behs)
-            for b in r.printed("BEH"):
+            for b in sorted(r.printed("BEH"), key=_key):
                 add(b, name)
             ctx.extra["behaviours_" + name] = len(behs) - n0
             if len(behs) == n0:
@@ -329,7 +341,7 @@ def replay_behaviours(ctx, exes, behs):
                     if hr.rc == 5:
                         raise Broken("replay harness usage error: " + hr.err[-500:])
                     bad = ch[k] if k < len(ch) else None
-                    ctx.violation("the real code %s while replaying TLC behaviour %s (src=%s, abi v%d): %s" % (
+                    _viol(ctx, "the real code %s while replaying TLC behaviour %s (src=%s, abi v%d): %s" % (
                         "timed out" if hr.timed_out else "crashed (rc=%s)" % hr.rc, bad and bad["id"], bad and bad["src"], abi,
                         hr.err[-1500:]), {"kind": "behaviour", "abi": abi, "seed": ctx.seed, "behaviour": bad})
                 for b, res in zip(ch, results):
@@ -345,7 +357,7 @@ def replay_behaviours(ctx, exes, behs):
                     bad = check_behaviour(ctx, b, res, stats)
                     if bad:
                         what, k = bad
-                        ctx.violation("replay of TLC behaviour (src=%s, abi v%d), step %d %s: %s" % (
+                        _viol(ctx, "replay of TLC behaviour (src=%s, abi v%d), step %d %s: %s" % (
                             b["src"], abi, k, json.dumps({x: b["steps"][k][x] for x in b["steps"][k] if x != "want"}), what),
                             {"kind": "behaviour", "abi": abi, "seed": ctx.seed, "behaviour": b, "failing_step": k,
                              "observed": res["steps"][k]})
@@ -377,7 +389,7 @@ def record(ctx, exes):
             if hr.rc == 5:
                 raise Broken("recorder usage error: " + hr.err[-500:])
             if hr.crashed or hr.timed_out or hr.rc != 0:
-                ctx.violation("the real code %s during a recorded random history (abi v%d, harness args %s): %s" % (
+                _viol(ctx, "the real code %s during a recorded random history (abi v%d, harness args %s): %s" % (
                     "timed out" if hr.timed_out else "crashed (rc=%s)" % hr.rc, abi, args, hr.err[-1500:]),
                     {"kind": "record", "abi": abi, "args": [str(a) for a in args]})
                 continue
@@ -397,7 +409,7 @@ def validate(ctx, lines):
     ctx.extra["events_validated"] = res["events"]
     for rj in res["rejected"]:
         ev, at = rj["events"], rj["at"]
-        ctx.violation("MetricsAsyncTrace rejects a real execution at event %d: %s (config %s)" % (
+        _viol(ctx, "MetricsAsyncTrace rejects a real execution at event %d: %s (config %s)" % (
             at, json.dumps(ev[at]) if at < len(ev) else "?", json.dumps(ev[0])),
             {"kind": "trace", "events": ev, "at": at})
     kinds = {}
